@@ -231,14 +231,17 @@ fn finish_event(s: Session, out: &mut Out, version: Option<(u8, u8)>) {
         let m = b.module();
         let ws = m.assemble();
         let l = dr::load_words(&ws);
-        (m, ws, l)
+        // the other entry point of the loader on the same binary
+        let lb = dr::load_bytes(crate::parser::words_to_bytes(&ws));
+        (m, ws, l, lb)
     });
     match r {
-        Err(p) => out.ev(json!({"ev": "bfinish", "st": "panic", "panic": jpanic(&p), "module": [], "words": [], "loaded": [], "load_err": ""})),
-        Ok((m, ws, l)) => {
+        Err(p) => out.ev(json!({"ev": "bfinish", "st": "panic", "panic": jpanic(&p), "module": [], "words": [], "loaded": [], "loaded_b": [], "load_err": ""})),
+        Ok((m, ws, l, lb)) => {
             let (loaded, le) = match l { Ok(m2) => (json!([j_module(&m2)]), String::new()), Err(e) => (json!([]), load_err_name(&e)) };
+            let loaded_b = match lb { Ok(m2) => json!([j_module(&m2)]), Err(_) => json!([]) };
             out.ev(json!({"ev": "bfinish", "st": "ok", "version": version.map(|v| json!([v.0, v.1])).unwrap_or(json!([])),
-                          "module": [j_module(&m)], "words": jws(&ws), "loaded": loaded, "load_err": le}));
+                          "module": [j_module(&m)], "words": jws(&ws), "loaded": loaded, "loaded_b": loaded_b, "load_err": le}));
         }
     }
 }
